@@ -33,6 +33,8 @@ def plan(tier, seed):
         out.append({'seed': seed * 1000003 + i, 'lmfver': doc.LMF_VERSIONS[i % 4],
                     'batch': BATCHES[i % len(BATCHES)], 'idstyle': 'short' if i % 3 else 'prefixed',
                     'frames': 'senses' if i % 11 == 5 else 'auto'})
+    # a synset with more declared members than the rank that unlisted members get (127): the declared order must hold
+    out.append({'seed': seed * 1000003 + 999961, 'lmfver': '1.1', 'batch': None, 'idstyle': 'prefixed', 'frames': 'auto', 'many_members': 150})
     if tier == 'thorough':
         out.append({'seed': seed * 1000003 + 999983, 'lmfver': '1.3', 'batch': None, 'idstyle': 'prefixed',
                     'frames': 'auto', 'big': 2005})
@@ -44,6 +46,17 @@ def plan(tier, seed):
 def build(case):
     r = random.Random(case['seed'])
     prof = doc.Profile(idstyle=case['idstyle'], frames=case['frames'])
+    if case.get('many_members'):
+        n = case['many_members']
+        order = list(range(n))
+        r.shuffle(order)
+        entries = [{'id': f'mm-e{i}', 'meta': None, 'lemma': {'writtenForm': f'member{i}', 'partOfSpeech': 'n'},
+                    'senses': [{'id': f'mm-s{i}', 'synset': 'mm-ss1' if i % 10 else 'mm-ss2', 'meta': None}]} for i in range(n)]
+        synsets = [{'id': 'mm-ss1', 'ili': '', 'partOfSpeech': 'n', 'meta': None, 'members': [f'mm-s{i}' for i in order if i % 10]},
+                   {'id': 'mm-ss2', 'ili': '', 'partOfSpeech': 'n', 'meta': None, 'members': [f'mm-s{i}' for i in reversed(order) if not i % 10]}]
+        lex = {'id': 'mm', 'label': 'many members', 'language': 'en', 'email': 'e', 'license': 'l', 'version': '1', 'meta': None,
+               'entries': entries, 'synsets': synsets}
+        return {'lmf_version': case['lmfver'], 'lexicons': [lex]}
     if case.get('big'):
         prof = doc.Profile(idstyle='prefixed', max_entries=case['big'], max_synsets=case['big'], hostile=0.1)
         lex = None
